@@ -136,14 +136,13 @@ DictInv == ExactlyOnce([k \in 1..Len(c.keys) |-> EvalT(c.keys[k], TabC[c.w][c.e]
 
 ---------------------------------------------------------------------------
 (* The quick tier in one TLC run: depth <= 2 over all names for the whole   *)
-(* family, depth <= 3 over two 4-name alphabets for one selected pair each, *)
-(* and the exhaustive dictionaries of those two pairs.                      *)
+(* family, depth <= 3 over a 4-name alphabet (C22_ALPHA: 2 or 3) for one    *)
+(* selected pair, and the exhaustive dictionaries of one selected pair.     *)
 QuickInit ==
   /\ n = 0
   /\ \/ ExhInitFor(2, AlphaAll, PairsAll)
-     \/ ExhInitFor(3, AlphaQ0, {PairAt(EnvInt("C22_PAIR", 1))})
-     \/ ExhInitFor(3, AlphaQ1, {PairAt(EnvInt("C22_PAIR2", 2))})
-     \/ DictInitFor(AlphaDict, PairsSel2)
+     \/ ExhInitFor(3, AlphaSel, {PairAt(EnvInt("C22_PAIR", 1))})
+     \/ DictInitFor(AlphaDict, {PairAt(EnvInt("C22_PAIR2", 2))})
 IsDict == "keys" \in DOMAIN c
 QuickEmit == IF IsDict THEN DictEmit ELSE ExhEmit
 QuickInv  == IsDict => DictInv
